@@ -28,7 +28,7 @@ TCase ==
     /\ l <= N
     /\ Ev.op = "Case"
     /\ Ev.rpc \in RPCs
-    /\ Ev.variant \in Variants
+    /\ Ev.variant \in VariantsOf(Ev.rpc)
     /\ LET p == ToSet(Ev.faults)
            e == ToSet(Ev.eff)
        IN  /\ InPlans(Ev.rpc, p)            \* the case is one TLC enumerated (= p \in Plans(Ev.rpc))
